@@ -193,6 +193,11 @@ func checkC09(c *Checker) {
 					continue
 				}
 				okK := K == msvD || K == msv1D
+				if kop == "mul" && !isP2(K) {
+					c.refuted("C09-G4", pi, p, fmt.Sprintf("the amplitude is multiplied by a pre-rounded reciprocal (1/%v) instead of being divided by the full scale: the product is not the correctly rounded quotient, so the matching float-to-fixed conversion does not return the original sample", K),
+						"a positive amplitude whose product with the rounded reciprocal falls one ulp below the quotient (e.g. int8 17)")
+					continue
+				}
 				c.expect(okK, "C09-G4", pi, p, fmt.Sprintf("divisor %v", K), fmt.Sprintf("divisor %v is neither the full scale %v nor %v", K, msv1D, msvD))
 				alo, ahi := new(big.Int).Sub(q.pc.lo, offS), new(big.Int).Sub(q.pc.hi, offS)
 				for _, v := range []*big.Int{alo, ahi} {
@@ -455,18 +460,30 @@ func checkC08(c *Checker) {
 				if q.pc.lo.v >= 1 || q.pc.hi.v <= -1 {
 					continue
 				}
-				m := math.Abs(q.v.mult)
+				var wantSlope *big.Rat
 				switch {
 				case q.pc.lo.v >= 0 && q.pc.hi.v > 0:
-					if m != msvF {
-						okF3, dF3 = false, fmt.Sprintf("positive inputs on %s are scaled by %v, expected 2^(d-1)-1 = %v", q.pc, m, msvF)
-					}
+					wantSlope = ratF(msvF)
 				case q.pc.hi.v <= 0 && q.pc.lo.v < 0:
-					if m != fullNeg {
-						okF3, dF3 = false, fmt.Sprintf("negative inputs on %s are scaled by %v, expected 2^(d-1) = %v", q.pc, m, fullNeg)
-					}
+					wantSlope = ratF(fullNeg)
 				default:
 					okF3, dF3 = false, fmt.Sprintf("piece %s spans both signs with one multiplier", q.pc)
+				}
+				wantIcpt := new(big.Rat).SetInt(zeroCode(kd, dd))
+				switch {
+				case wantSlope == nil:
+				case q.v.slope == nil || q.v.icpt == nil:
+					okF3, dF3 = false, fmt.Sprintf("value on %s is not an affine function of the input: %s", q.pc, q.v.desc)
+				case q.v.slope.Cmp(wantSlope) != 0:
+					okF3, dF3 = false, fmt.Sprintf("inputs on %s are scaled by %s, expected the full scale %s", q.pc, q.v.slope.FloatString(1), wantSlope.FloatString(1))
+				case q.v.icpt.Cmp(wantIcpt) != 0:
+					okF3, dF3 = false, fmt.Sprintf("codes on %s are offset by %s, expected the zero-amplitude code %s", q.pc, q.v.icpt.FloatString(1), wantIcpt.FloatString(1))
+				case q.v.err == nil || q.v.err.Cmp(big.NewRat(1, 1)) >= 0:
+					es := "unbounded"
+					if q.v.err != nil {
+						es = q.v.err.FloatString(1)
+					}
+					okF3, dF3 = false, fmt.Sprintf("floating-point rounding before the truncation on %s can move the result by %s quantisation steps (value %s): not within one step of input x full scale", q.pc, es, q.v.desc)
 				}
 				n := 0
 				q.kp.val.walk(func(x *Term) bool {
